@@ -131,6 +131,9 @@ func strAtoms() []strAtom {
 		raw("\u9fa5", "\\u9fa5", "\\u9FA5"),
 		raw("\uffe5", "\\uffe5", "\\uFFE5"),
 		raw("\u8000", "\\u8000"),
+		raw("\ufeff", "\\ufeff", "\\uFEFF"),
+		raw("\u00a0", "\\xa0", "\\u00A0"),
+		raw("\u200b", "\\u200b"),
 		only("\u2028", "\\u2028"),
 		only("\u0085", "\\u0085", "\\x85"),
 		raw("\xff"),
